@@ -295,6 +295,7 @@ type dirState struct {
 	acc      map[int]bool
 	outcomes map[string][]int // outcome class -> case ids
 	keyDep   map[string][]int // rejected with a message naming the site address, by outcome class
+	differs  []int            // the second, identical validation ended differently from the first
 }
 
 func (ds *dirState) number(cs []*Case) []*Case {
@@ -327,7 +328,32 @@ func (m *monitor) pipeline(idx int, dv *dirVocab) {
 		}
 	}
 	var startCases []*Case
+	// first the cases that have to be there: the ones marked so when they
+	// were generated, and (up to eight) whose second identical validation did
+	// not end like the first - what a load leaves behind in the process
+	// matters for them, and a start is a load
+	var first []*Case
+	inFirst := map[int]bool{}
+	for _, k := range append(append(append([]*Case(nil), p1...), p2...), p3...) {
+		if k.MustStart {
+			first = append(first, k)
+			inFirst[k.ID] = true
+		}
+	}
+	sort.Ints(ds.differs)
+	for i, id := range ds.differs {
+		if k := byID[id]; k != nil && i < 8 && !inFirst[id] {
+			first = append(first, k)
+			inFirst[id] = true
+		}
+	}
+	c.Count("start_cases_always_included", int64(len(first)))
 	for _, k := range m.stratifiedSample(ds, byID, m.b.startPer) {
+		if !inFirst[k.ID] {
+			first = append(first, k)
+		}
+	}
+	for _, k := range first {
 		kk := *k
 		startCases = append(startCases, &kk)
 		// two-key site blocks: every tls case, a quarter of the others
@@ -517,6 +543,8 @@ func (m *monitor) makeFixture() error {
 	w("d/g.pem", []byte("-----BEGIN GARBAGE-----\nAAAA\n-----END GARBAGE-----\n"))
 	h := sha1.Sum([]byte("p"))
 	w("ht.txt", []byte("# users\np:{SHA}"+base64.StdEncoding.EncodeToString(h[:])+"\nother:plain\n"))
+	// a well-formed user line followed by a malformed one
+	w("htbad.txt", []byte("p:{SHA}"+base64.StdEncoding.EncodeToString(h[:])+"\nno-separator-on-this-line\n"))
 	cp, kp, _ := lib.MintCert(m.fix, "c", []string{"127.0.0.1"})
 	cb, _ := os.ReadFile(cp)
 	kb, _ := os.ReadFile(kp)
@@ -944,15 +972,50 @@ func (m *monitor) abnormal(tag, mode string, k *Case, prefix []*Case, o *outPars
 		c.Nontrivial(k.Directive())
 		m.deferViolation(k.ID, key, fmt.Sprintf("load %d of `%s` does not return: blocked below %s waiting for a peer named in its arguments that accepts the connection and never answers", o.pendRun, oneLine(k.Key()), ioFrame), witness)
 	case o.stall != "" || res.TimedOut:
-		// slow or spinning: not decidable from the dump; give it 10x alone
-		o2, _ := m.runChild(tag+"-slow", mode, []*Case{k}, m.tParkMs.Load(), 300000)
+		// slow or computing without end: not decidable from one dump. Run it
+		// alone with a window of 120 s. A load that has then used more than
+		// 60 s of PROCESSOR time (not wall-clock time: the number does not
+		// depend on how busy the machine is) for a configuration of a few
+		// lines, and whose goroutine is still running inside casket code, is
+		// past every bound a user could accept.
+		key := "C11/nontermination/cpu/" + k.Dir
+		m.mu.Lock()
+		seen := m.deadlocks[key]
+		m.mu.Unlock()
+		if seen >= 2 && strings.Contains(o.stall, "no-progress") {
+			// two loads of this directive are already confirmed that way:
+			// count this one under the same key without paying for it again
+			c.Count("nonterminating_loads_not_rerun", 1)
+			c.Eval(1)
+			return
+		}
+		o2, res2 := m.runChild(tag+"-slow", mode, []*Case{k}, m.tParkMs.Load(), 120000)
 		if len(o2.results) == 1 {
 			c.Count("slow_cases", 1)
 			judge(k, o2.results[0])
 			return
 		}
 		c.Eval(1)
-		c.Inconclusive(fmt.Sprintf("no return within 30 s and again within 300 s alone, goroutine not parked in a lock: %s", oneLine(k.Key())))
+		var cpu int64
+		if i := strings.Index(o2.stall, "cpu="); i >= 0 {
+			fmt.Sscanf(o2.stall[i:], "cpu=%d", &cpu)
+		}
+		dump2 := readDump(res2.StderrPath)
+		runFrame := runningWorkerIn(dump2)
+		if strings.Contains(o2.stall, "no-progress") && cpu >= 60000 && runFrame != "" && o2.pending && o2.pendID == k.ID {
+			witness["processor_ms_used_by_the_load"] = cpu
+			witness["running_in"] = runFrame
+			witness["goroutine"] = dumpExcerpt(dump2)
+			witness["confirmed"] = "re-run alone in a fresh process: 120 s without returning"
+			m.mu.Lock()
+			m.deadlocks[key]++
+			m.mu.Unlock()
+			c.Count("nonterminating_loads", 1)
+			c.Nontrivial(k.Directive())
+			m.deferViolation(k.ID, key, fmt.Sprintf("load %d of `%s` does not end: alone in a fresh process it used %d s of processor time in 120 s and is still running in %s", o.pendRun, oneLine(k.Key()), cpu/1000, runFrame), witness)
+			return
+		}
+		c.Inconclusive(fmt.Sprintf("no return within 30 s and again within 120 s alone (processor time used %d ms, stall %q): %s", cpu, o2.stall, oneLine(k.Key())))
 	default:
 		witness["stderr_tail"] = trunc(tailOf(dump, 3000), 3000)
 		c.Count("exits_during_load", 1)
@@ -1111,7 +1174,10 @@ func (m *monitor) judgeOne(ds *dirState, k *Case, r *caseRes) {
 	}
 	if r1.Acc != r2.Acc {
 		c.Count("second_load_outcome_differs", 1)
-		m.sample("second-identical-load-differs(not judged)", 3, k.ID, map[string]interface{}{"directive": oneLine(k.Key()), "first": r1, "second": r2})
+		m.sample("second-identical-load-differs(sent to the validate-against-start comparison)", 3, k.ID, map[string]interface{}{"directive": oneLine(k.Key()), "first": r1, "second": r2})
+		ds.mu.Lock()
+		ds.differs = append(ds.differs, k.ID)
+		ds.mu.Unlock()
 	}
 	oc := outcomeClass(r1)
 	ds.mu.Lock()
